@@ -34,6 +34,19 @@ def build(spec):
         return frozenset(build(x) for x in spec[1])
     if t == 'd':
         return dict((build(k), build(v)) for k, v in spec[1])
+    if t == 'D':
+        # a dict SUBCLASS (spec[1]: 'ordered' | 'default' | 'counter'), items as for 'd'
+        import collections
+        items = [(build(k), build(v)) for k, v in spec[2]]
+        if spec[1] == 'ordered':
+            return collections.OrderedDict(items)
+        if spec[1] == 'default':
+            d = collections.defaultdict(int)
+            d.update(items)
+            return d
+        c = collections.Counter()
+        c.update(dict(items))
+        return c
     if t == 'H':
         return hostile(spec[1])
     if t == 'M':
